@@ -722,5 +722,5 @@ def worker(ctx: Ctx):
     q = ctx.tier == "quick"
     excl = tuple(k for k, on in ctx.excl.items() if on)
     hyp_run(ctx, sched_case(45 if q else 70, excl=excl), run_case, 36 if q else 800, sub=0)
-    hyp_run(ctx, tap_case("tap-003", 32 if q else 70, excl=excl), run_case, 4 if q else 30, sub=1)
-    hyp_run(ctx, tap_case("tap-001", 32 if q else 70, slow_nets=not q, excl=excl), run_case, 4 if q else 30, sub=2)
+    hyp_run(ctx, tap_case("tap-003", 32 if q else 70, excl=excl), run_case, 4 if q else 26, sub=1)
+    hyp_run(ctx, tap_case("tap-001", 32 if q else 70, slow_nets=not q, excl=excl), run_case, 4 if q else 26, sub=2)
